@@ -253,29 +253,35 @@ class Check(FormulaCheck):
             b = self.ev('HEX2DEC(DEC2HEX(v_n))', v_n=n)
             self.expect('C17/HEX2DEC(DEC2HEX(n))', b == n, n=n, hex=self.ev('DEC2HEX(v_n)', v_n=n), got=b)
             # a whole number is a whole number whether the host holds it as int or as float (510/2 is 255): same conversions, same roundings
-            if abs(n) < 2 ** 52:
+            if abs(n) < 2 ** 52 and rnd.random() < 0.25:
                 b = self.ev('HEX2DEC(DEC2HEX(v_n))', v_n=float(n))
                 self.expect('C17/HEX2DEC(DEC2HEX(n)):whole-number-held-as-float', b == n, n=float(n), got=b)
                 b = self.ev('HEX2DEC(DEC2HEX(v_n*2/2))', v_n=n)
                 self.expect('C17/HEX2DEC(DEC2HEX(n)):whole-number-held-as-float', b == n, n='%d*2/2' % n, got=b)
-            x1, d1 = rnd.choice([2.567, -13.245, 1234.5678, 0.5, 99.995]), rnd.randint(-3, 3)
-            a_, b_ = self.ev('ROUND(v_x,v_d)', v_x=x1, v_d=d1), self.ev('ROUND(v_x,v_d)', v_x=x1, v_d=float(d1))
-            self.expect('C17/ROUND:digits-held-as-float', b_ == a_ and not self.is_err(b_), x=x1, digits=float(d1), with_int_digits=a_, got=b_)
-            for fn_ in ('ROUNDUP', 'ROUNDDOWN'):
-                a_, b_ = self.ev('%s(v_x,v_d)' % fn_, v_x=x1, v_d=d1), self.ev('%s(v_x,v_d)' % fn_, v_x=x1, v_d=float(d1))
-                self.expect('C17/%s:digits-held-as-float' % fn_, b_ == a_, x=x1, digits=float(d1), with_int_digits=a_, got=b_)
-            r1, m1 = rnd.randint(2, 36), rnd.randint(0, 10 ** 6)
-            a_, b_ = self.ev('DECIMAL(BASE(v_n,v_r),v_r)', v_n=m1, v_r=r1), self.ev('DECIMAL(BASE(v_n,v_r),v_r)', v_n=float(m1), v_r=float(r1))
-            self.expect('C17/DECIMAL(BASE(n,r),r):whole-numbers-held-as-float', a_ == m1 and b_ == m1, n=m1, radix=r1, got=(a_, b_))
-            # DECIMAL reads digits in radix 2-36 only
-            for bad in (0, 1, 37, -2, 100, -1, 36.5 + 1):
-                g_ = self.ev('DECIMAL(v_t,v_r)', v_t=rnd.choice(['10', '0', '1', '0x1F', '0b11', '0o17', 'Z']), v_r=bad)
-                self.expect('C17/DECIMAL:radix-outside-2-36-yields-a-value', self.is_err(g_), radix=bad, got=g_)
+            if rnd.random() < 0.25:
+                x1, d1 = rnd.choice([2.567, -13.245, 1234.5678, 0.5, 99.995]), rnd.randint(-3, 3)
+                a_, b_ = self.ev('ROUND(v_x,v_d)', v_x=x1, v_d=d1), self.ev('ROUND(v_x,v_d)', v_x=x1, v_d=float(d1))
+                self.expect('C17/ROUND:digits-held-as-float', b_ == a_ and not self.is_err(b_), x=x1, digits=float(d1), with_int_digits=a_, got=b_)
+                for fn_ in ('ROUNDUP', 'ROUNDDOWN'):
+                    a_, b_ = self.ev('%s(v_x,v_d)' % fn_, v_x=x1, v_d=d1), self.ev('%s(v_x,v_d)' % fn_, v_x=x1, v_d=float(d1))
+                    self.expect('C17/%s:digits-held-as-float' % fn_, b_ == a_, x=x1, digits=float(d1), with_int_digits=a_, got=b_)
+                r1, m1 = rnd.randint(2, 36), rnd.randint(0, 10 ** 6)
+                a_, b_ = self.ev('DECIMAL(BASE(v_n,v_r),v_r)', v_n=m1, v_r=r1), self.ev('DECIMAL(BASE(v_n,v_r),v_r)', v_n=float(m1), v_r=float(r1))
+                self.expect('C17/DECIMAL(BASE(n,r),r):whole-numbers-held-as-float', a_ == m1 and b_ == m1, n=m1, radix=r1, got=(a_, b_))
+                # DECIMAL reads digits in radix 2-36 only
+                for bad in (0, 1, 37, -2, 100, -1, 36.5 + 1):
+                    g_ = self.ev('DECIMAL(v_t,v_r)', v_t=rnd.choice(['10', '0', '1', '0x1F', '0b11', '0o17', 'Z']), v_r=bad)
+                    self.expect('C17/DECIMAL:radix-outside-2-36-yields-a-value', self.is_err(g_), radix=bad, got=g_)
             rec.nt(('hex', n))
             # with a number of places: whatever text comes back still denotes n (padding adds zeros only); an error otherwise
             pl = rnd.randint(0, 12)
             t = self.ev('DEC2HEX(v_n,v_p)', v_n=n, v_p=pl)
             plain = self.ev('DEC2HEX(v_n)', v_n=n)
+            tf = self.ev('DEC2HEX(v_n,v_p)', v_n=n, v_p=float(pl))
+            self.expect('C17/DEC2HEX:places-held-as-float', tf == t, n=n, places=float(pl), with_int_places=t, got=tf)
+            if n >= 0:
+                bi, bf = self.ev('BASE(v_n,2,v_p)', v_n=n % 4096, v_p=pl), self.ev('BASE(v_n,2,v_p)', v_n=n % 4096, v_p=float(pl))
+                self.expect('C17/BASE:places-held-as-float', bf == bi, n=n % 4096, places=float(pl), with_int_places=bi, got=bf)
             if not self.is_err(t):
                 back = self.ev('HEX2DEC(v_t)', v_t=t)
                 self.expect('C17/HEX2DEC(DEC2HEX(n,places))', back == n and isinstance(t, str) and t.lstrip('0') == str(plain).lstrip('0'), n=n, places=pl, hex=t, got=back)
